@@ -439,6 +439,7 @@ def check_recount(ctx, facts):
     # the persisted tail block is looked up in the WHOLE recovered chain: the comparison of a chain block's id
     # with the persisted block id is evaluated per element of an iteration over the chain
     searched = False
+    reversed_at = None
     where = None
     bodies = [b] + facts.closures_of(b)
     for c in bodies:
@@ -468,7 +469,11 @@ def check_recount(ctx, facts):
                                 cn = strip_generics(callee_name(call.node))
                                 recv = show(strip_refs(expr(hb_, call.node["args"][0])), 8)
                                 if re.search(r"Iterator>?::(position|rposition|find|find_map|rfind|any)$", cn) and ".chain" in recv:
-                                    searched = True
+                                    from .core.slicing import index_counted_from_end
+                                    if index_counted_from_end(hb_, call):
+                                        reversed_at = call
+                                    else:
+                                        searched = True
             else:
                 bbx = site.bb if site is not None else None
                 if bbx is not None:
@@ -486,7 +491,11 @@ def check_recount(ctx, facts):
                         if hb2 is None or hb2 == hb:
                             break
                         hb, L = hb2, L2
-    if searched:
+    if reversed_at is not None:
+        ctx.violate("C15.4", F, "persisted-tail-block-index-counted-from-the-end", b.relfile, reversed_at.line,
+                    "the persisted tail block is looked up with a search that counts from the END of the chain (rev().position / rev().enumerate()), and the result is used as a chain "
+                    "index: with two or more blocks in the chain the consumed entries are computed against other blocks")
+    elif searched:
         ctx.ok("C15.4", F, "the persisted tail block is searched by id over the whole recovered chain", b.relfile, where[1].line if where and where[1] is not None else b.line)
     else:
         ctx.violate("C15.4", F, "persisted-tail-block-not-searched-in-chain", b.relfile, where[1].line if where and where[1] is not None else b.line,
